@@ -245,7 +245,7 @@ theorem C14_prefix_sound_partial (sc : SC) (p w v : Bytes) (ch : Chain)
     are rejected", read with the browser's decoder. On the pinned tree this was FALSE (witness `/a&#9b/`, and in its
     scheme variant `java&#9script:` — accepted, read as `javascript:` by browsers; kernel-checked in
     Proofs/C14Sound.lean against the code before the repair). Since the repair (numeric character references
-    without ';' are refused in URL prefixes) no counterexample is known; the statement itself is not proved. -/
+    without ';' are refused in URL prefixes) the statement is PROVED: Proofs/C14Ws.lean, `C14_rejects_browser_whitespace`. -/
 def C14_rejects_browser_whitespace_statement : Prop :=
   ∀ p : Bytes, (CharRef.decodeAttr p).any isWsOrCtl = true → validateURLPrefix p = false
 
